@@ -179,7 +179,11 @@ Proof.
   intros Hm H; unfold are_joinable.
   repeat match goal with |- agree _ _ (snd (if ?c then _ else _)) => destruct c; cbn [snd]; auto end.
   pose proof (agree_get_refs m s0 s b Hm H) as H1. destruct (get_refs s b) as [syms s1]; cbn [snd] in H1.
-  repeat match goal with |- agree _ _ (snd (if ?c then _ else _)) => destruct c; cbn [snd]; auto end.
+  destruct (existsb _ syms); cbn [snd]; auto.
+  destruct (bsize (the_blk s b) =? 0)%Z.
+  - repeat match goal with |- agree _ _ (snd (if ?c then _ else _)) => destruct c; cbn [snd]; auto end.
+  - pose proof (agree_get_refs m s0 s1 a Hm H1) as H2. destruct (get_refs s1 a) as [syms1 s2]; cbn [snd] in H2.
+    repeat match goal with |- agree _ _ (snd (if ?c then _ else _)) => destruct c; cbn [snd]; auto end.
 Qed.
 Lemma agree_join_syms m s0 s s' a b z : m FRcache = false -> agree m s0 s -> join_syms s a b z = Ok s' -> agree m s0 s'.
 Proof.
